@@ -10,7 +10,12 @@ package resourceexecutor
 //   - the kernel's presentation of a value: after a call that wrote a file, the file content is put into the form a
 //     kernel shows for the same value ("200000" in cpu.max reads back "200000 100000", "0,1" in cpuset.cpus reads back
 //     "0-1", MaxInt64 in memory.high reads back "max"); the value itself is never changed;
-//   - time: the forced periodic rewrite and the cache expiry are pushed out of reach, entries expire only by `expire`.
+//   - time: the forced periodic rewrite and the cache expiry are pushed out of reach, entries expire only by `expire`;
+//   - a second caller of the same executor (begin with target2/at): after the at-th updater call of the batch it enters
+//     LeveledUpdateBatch with its own batch for the same subtree. Whether it gets in is read off the executor's own lock
+//     (TryLock, released at once): if the lock is held it waits, i.e. its batch runs when the first has returned; if not,
+//     its batch runs right there, between two updater calls of the first one (one legal schedule of the two goroutines,
+//     produced deterministically). Its begin/done are logged with second = true (and nested = true when it got in).
 
 import (
 	"encoding/json"
@@ -50,6 +55,11 @@ type c12Op struct {
 	Spell  int             `json:"spell,omitempty"` // spelling of the target strings (0 canonical, 1 alternative), same value
 	Order  []int           `json:"order,omitempty"` // order of the updaters inside their level (node ids); default ascending
 	Nodes  []int           `json:"nodes,omitempty"`
+	// begin: a second caller's batch for the same subtree, entering after the At-th updater call of this one
+	Target2 json.RawMessage `json:"target2,omitempty"`
+	Order2  []int           `json:"order2,omitempty"`
+	At      int             `json:"at,omitempty"`
+	Second  bool            `json:"second,omitempty"` // recorded begin of the second caller's batch: an output of the step above
 }
 
 // abstract value: cpuset = sorted cpu ids; limit = single number in L
@@ -115,10 +125,16 @@ type c12Seg struct {
 	stop   chan struct{}
 	stats  *c12Stats
 	minus1 int
+	// second caller waiting to enter (par)
+	pend     *c12Op
+	parAt    int
+	parCalls int
+	inSecond bool
 }
 
 type c12Stats struct {
 	segs, rewrites, calls, writes, mergeWrites, exactWrites, sameNodes, shiftNodes, minus1InCPUMax int
+	parSteps, parNested                                                                          int
 }
 
 // ---- projection of a file content onto the abstract value (field reads only; -1 / [-1] = not a value of the domain)
@@ -292,6 +308,19 @@ func (s *c12Seg) afterCall(node int, pass string, err error) {
 		}
 		s.arm(n - 1)
 	}
+	// the second caller arrives now
+	if s.pend != nil && !s.inSecond {
+		s.parCalls++
+		if s.parCalls == s.parAt && s.exec.LeveledUpdateLock.TryLock() {
+			s.exec.LeveledUpdateLock.Unlock() // nobody holds the executor's batch lock: it gets in right here
+			p := *s.pend
+			s.pend = nil
+			s.inSecond = true
+			s.rewrite(p, true, true)
+			s.inSecond = false
+			s.stats.parNested++
+		}
+	}
 }
 
 func (s *c12Seg) reset(o c12Op, idx int, seed int64) {
@@ -348,6 +377,31 @@ func (s *c12Seg) reset(o c12Op, idx int, seed int64) {
 }
 
 func (s *c12Seg) begin(o c12Op) {
+	if o.Second {
+		return // recorded output of a par step (replay)
+	}
+	if len(o.Target2) > 0 {
+		if len(o.Order2) != len(s.par) {
+			o.Order2 = make([]int, len(s.par))
+			for i := range o.Order2 {
+				o.Order2[i] = i + 1
+			}
+		}
+		s.pend = &c12Op{Op: "begin", Target: o.Target2, Order: o.Order2, Spell: o.Spell}
+		s.parAt, s.parCalls = o.At, 0
+		s.stats.parSteps++
+	}
+	s.rewrite(o, false, false)
+	if s.pend != nil { // the second caller had to wait (or arrives after the last call): its batch is the next rewrite
+		p := *s.pend
+		s.pend = nil
+		s.inSecond = true
+		s.rewrite(p, true, false)
+		s.inSecond = false
+	}
+}
+
+func (s *c12Seg) rewrite(o c12Op, second, nested bool) {
 	target := c12Decode(s.kind, o.Target)
 	if len(target) != len(s.par) {
 		s.t.Fatalf("c12: target has %d values for %d nodes", len(target), len(s.par))
@@ -390,9 +444,20 @@ func (s *c12Seg) begin(o c12Op) {
 		d := c12Depth(s.par, n)
 		levels[d-1] = append(levels[d-1], cu)
 	}
-	s.rec.Emit(vu.Ev{"op": "begin", "target": c12Encode(s.kind, target), "spell": o.Spell, "order": order})
+	ev := vu.Ev{"op": "begin", "target": c12Encode(s.kind, target), "spell": o.Spell, "order": order}
+	if len(o.Target2) > 0 {
+		ev["target2"], ev["order2"], ev["at"] = c12Encode(s.kind, c12Decode(s.kind, o.Target2)), o.Order2, o.At
+	}
+	if second {
+		ev["second"], ev["nested"] = true, nested
+	}
+	s.rec.Emit(ev)
 	s.exec.LeveledUpdateBatch(levels)
-	s.rec.Emit(vu.Ev{"op": "done", "files": c12Encode(s.kind, s.snapshot())})
+	ev = vu.Ev{"op": "done", "files": c12Encode(s.kind, s.snapshot())}
+	if second {
+		ev["second"], ev["nested"] = true, nested
+	}
+	s.rec.Emit(ev)
 	s.stats.rewrites++
 }
 
@@ -563,6 +628,34 @@ func c12Random(rng *rand.Rand) []c12Op {
 	return script
 }
 
+// two callers of the executor on one subtree: batch towards A, a second caller with batch B arriving after the at-th updater call
+func c12RandomPar(rng *rand.Rand) []c12Op {
+	par := c12RandTree(rng, 4)
+	for len(par) < 2 {
+		par = c12RandTree(rng, 4)
+	}
+	combos := []struct {
+		kind, file string
+	}{{"cpuset", "cpuset.cpus"}, {"limit", "cpu.cfs_quota_us"}, {"limit", "memory.min"}, {"limit", "memory.low"}, {"limit", "memory.high"}}
+	c := combos[rng.Intn(len(combos))]
+	lims := []int{1, 2, 3, c12Unl}
+	if strings.HasPrefix(c.file, "memory.") {
+		lims = []int{0, 1, 2, 3, c12Unl}
+	}
+	old := c12RandAssign(rng, par, c.kind, 4, lims, nil)
+	a := c12RandAssign(rng, par, c.kind, 4, lims, nil)
+	b := c12RandAssign(rng, par, c.kind, 4, lims, old)
+	perm := func() []int {
+		o := rng.Perm(len(par))
+		for i := range o {
+			o[i]++
+		}
+		return o
+	}
+	return []c12Op{{Op: "reset", Par: par, Kind: c.kind, File: c.file, Ver: 1 + rng.Intn(2), Old: c12Raw(c.kind, old)},
+		{Op: "begin", Target: c12Raw(c.kind, a), Spell: rng.Intn(2), Order: perm(), Target2: c12Raw(c.kind, b), Order2: perm(), At: 1 + rng.Intn(2*len(par))}}
+}
+
 func c12SelfTest(t *testing.T, dir string) {
 	// the write detector must see a rewrite with identical content, and an empty write to an empty file
 	p := filepath.Join(dir, "c12-selftest")
@@ -638,9 +731,13 @@ func TestVerifC12(t *testing.T) {
 		for i := 0; i < n; i++ {
 			c12Run(t, rec, stats, c12Random(rng), i)
 		}
+		rngp := vu.Rand(1204)
+		for i := 0; i < n/4; i++ {
+			c12Run(t, rec, stats, c12RandomPar(rngp), i)
+		}
 		// vacuity is judged on the INPUTS only (unchanged files, shifting cpusets, updater calls made at all): what the
 		// code wrote is for TLC to judge, a code defect must never turn into a "vacuous run"
-		if stats.sameNodes == 0 || stats.shiftNodes == 0 || stats.calls == 0 {
+		if stats.sameNodes == 0 || stats.shiftNodes == 0 || stats.calls == 0 || stats.parSteps == 0 {
 			t.Fatalf("c12: vacuous run %+v", *stats)
 		}
 	}
